@@ -337,6 +337,15 @@ Theorem c19_dump_noncanonical_os : forall analysis arch platform_id e pc v,
 Proof. exact dump_noncanonical_os. Qed.
 Print Assumptions c19_dump_noncanonical_os.
 
+(* no arithmetic trap in calculate_heuristics' is_repeated: `(addr & 0xff) * 0x0101..01` (a plain u64 multiplication, which
+   panics on overflow in a debug build) never overflows, for the multipliers regenerated from the source — so the model's
+   unbounded product is the code's in both profiles *)
+Theorem c19_is_repeated_no_overflow : forall a,
+  0 <= Z.land a 255 * REPEAT_MUL_2 < two64 /\ 0 <= Z.land a 255 * REPEAT_MUL_4 < two64 /\
+  0 <= Z.land a 255 * REPEAT_MUL_8 < two64.
+Proof. exact is_repeated_no_overflow. Qed.
+Print Assumptions c19_is_repeated_no_overflow.
+
 (* ---- non-vacuity ---- *)
 Example c19_nonvacuous_flip :
   let rs := [region_of_info 524288 8 0] in
